@@ -6,6 +6,7 @@ import (
 	"os"
 	"path"
 	"reflect"
+	"sort"
 	"strings"
 
 	"github.com/zeromicro/go-zero/core/jsonx"
@@ -329,7 +330,16 @@ func toLowerCaseInterface(v any, info *fieldInfo) any {
 func toLowerCaseKeyMap(m map[string]any, info *fieldInfo) map[string]any {
 	res := make(map[string]any)
 
-	for k, v := range m {
+	// visit the keys in a fixed order, otherwise the value loaded for keys that
+	// differ only in case depends on the map iteration order.
+	keys := make([]string, 0, len(m))
+	for k := range m {
+		keys = append(keys, k)
+	}
+	sort.Strings(keys)
+
+	for _, k := range keys {
+		v := m[k]
 		ti, ok := info.children[k]
 		if ok {
 			res[k] = toLowerCaseInterface(v, ti)
